@@ -1,7 +1,7 @@
 // addr_embedded unit (C11): the two entries of the address parser - strict (stand-alone) and lenient (embedded) - over the internal header / length dispatch,
 // which is decided by the Kani address harnesses (shelley_header_length_dispatch*: accepted lengths per header, never Malformed) and ASSUMED here as an
 // uninterpreted parse function of (bytes, ignore_leftover_bytes).
-opaque_types!(Ed25519KeyHash, ScriptHash, ByronAddress);
+opaque_types!(Ed25519KeyHash, ScriptHash, ExtendedAddr);
 #[derive(Clone, Copy)]
 pub struct BigNum(pub u64);
 pub uninterp spec fn parse_spec(data: Seq<u8>, lenient: bool) -> Option<Address>;
@@ -17,3 +17,22 @@ impl Address {
         ensures r.0 is Malformed ==> r.0->Malformed_0.0@ == data@ && parse_spec(data@, true) is None,
                 !(r.0 is Malformed) ==> parse_spec(data@, true) == Some(r) { unimplemented!() }
 }
+
+// ---- Byron: the stand-alone parsers over the CBOR decoder of the address structure (ExtendedAddr::deserialize: envelope + CRC in unit byron_envelope),
+// here an uninterpreted partial function of the input bytes that also says HOW MANY bytes it consumed
+pub uninterp spec fn byron_parse(data: Seq<u8>) -> Option<(ExtendedAddr, nat)>;
+/// cbor_event::de::Deserializer over a std::io::Cursor (R-cursor): the input and the read position
+pub struct CursorDe { pub data: Ghost<Seq<u8>>, pub pos: u64 }
+impl CursorDe {
+    #[verifier::external_body] pub fn new_(bytes: Vec<u8>) -> (r: CursorDe) ensures r.data@ == bytes@, r.pos == 0 { unimplemented!() }
+    #[verifier::external_body] pub fn new_slice_(bytes: &[u8]) -> (r: CursorDe) ensures r.data@ == bytes@, r.pos == 0 { unimplemented!() }
+    /// `raw.as_ref().position()`
+    #[verifier::external_body] pub fn position_(&self) -> (r: u64) ensures r == self.pos { unimplemented!() }
+}
+impl ExtendedAddr {
+    #[verifier::external_body] pub fn deserialize(raw: &mut CursorDe) -> (r: Result<ExtendedAddr, DeserializeError>)
+        requires old(raw).pos == 0
+        ensures final(raw).data == old(raw).data, r is Ok <==> byron_parse(old(raw).data@) is Some,
+                r is Ok ==> r->Ok_0 == byron_parse(old(raw).data@)->Some_0.0 && final(raw).pos == byron_parse(old(raw).data@)->Some_0.1 && final(raw).pos <= old(raw).data@.len() { unimplemented!() }
+}
+impl From<DeserializeError> for JsError { #[verifier::external_body] fn from(e: DeserializeError) -> JsError { unimplemented!() } }
